@@ -171,6 +171,10 @@ for _a in ("Mem", "Delay"):
     fixed("F70", "C18", "dfac186", "C18.borrow|arm|" + _a, "`fn dsp(){ let t = (now, 2.0)  mem(t.0) }`: the generated program holds `state` (&mut of the state storage) while it evaluates the operand, and a tuple element is read through `self.memory`: rustc rejects the transpiled program with E0502 (findings/repro/F70_*.mmm; `mimium-cli --emit-rust` + `rustc --crate-type lib`)")
 fixed("F64", "C16", "cfb0ebe", "C16.invented-names|binder|record_update_temp", "`let record_update_temp = 7.0  let q = {r <- a = record_update_temp}` failed to type-check (the desugared record update binds a temporary of that name, and the type checker special-cases the name): the temporary is now called `record_update$temp`, which no program can spell (findings/repro/F64_*.mmm)")
 
+# ---- `|` after a parameter annotation (C16.annotation-ambiguity) ------------------------------------------------
+add("F71", ["C16"], "C16.annotation-ambiguity|pipe|ParenBegin", "`let f = |x:float| (x + 1.0)` does not parse (`Expected ParenEnd, found OpSum`) while `|x| (x + 1.0)` and `|x:float| x + 1.0` do: after the annotation the parser reads `| (` as the continuation of a union type. Adding an agreeing annotation changes whether the program compiles (findings/repro/F71_*paren*.mmm). Not repaired: it needs a decision about the grammar (unions in lambda parameters would have to be parenthesised)")
+add("F71", ["C16"], "C16.annotation-ambiguity|pipe|ArrayBegin", "same for a body that starts with `[`: `|x:float| [x, 1.0]` (findings/repro/F71_*array*.mmm)")
+
 
 def main():
     extra = os.path.join(HERE, "tools", "findings_more.py")
